@@ -89,7 +89,7 @@ def run(ctx):
                'queries within 1e-12 relative of a table end: inside/outside is a don\'t-care; node queries are made in the table\'s own unit',
                'tables not covering V or not increasing are outside the quantifier')
     ctx.require_events('Extinction.get_av:post', 'pair:chi-scaling', 'pair:units', 'roundtrip:pickle', 'roundtrip:table',
-                       'roundtrip:file', 'at-V', 'history:chi-reassigned', 'history:table-replaced', 'history:wav-reassigned', 'query:scalar', 'V-on-node', 'roundtrip:file-defaults')
+                       'roundtrip:file', 'at-V', 'history:chi-reassigned', 'history:table-replaced', 'history:wav-reassigned', 'query:scalar', 'V-on-node', 'roundtrip:file-defaults', 'history:chi-scaled-with-augmented-assignment')
     ctx.require_regimes('rows=2', 'rows>=100', 'query:outside', 'query:node', 'query:inside')
     n_tab = 150 if ctx.quick else 4000
     for it in range(n_tab):
@@ -197,7 +197,11 @@ def run(ctx):
         law_h.wav = tv * unit
         law_h.chi = chi_native * cunit
         law_h.get_av(q)
-        law_h.chi = (chi_native * c) * cunit
+        if it % 2:
+            law_h.chi = (chi_native * c) * cunit
+        else:
+            law_h.chi *= c          # augmented assignment: the same array object, scaled in place and assigned back
+            ctx.event('history:chi-scaled-with-augmented-assignment')
         gh = np.asarray(law_h.get_av(q), float)
         ctx.event('history:chi-reassigned')
         if np.any(np.abs(gh - base) > rel_tol(tw_um, chi_native, qs_um[:12], 1e-12) * np.abs(base)):
